@@ -102,6 +102,31 @@ A(Fn(CLI, "connect", impl=r"impl Connector", mod="client", props=["C17", "C02", 
                         sec::client_info_pdu(sec::info_packet(sel(old(self).restricted_admin_mode, old(self).domain@), sel(old(self).restricted_admin_mode, old(self).username@), sel(old(self).restricted_admin_mode, old(self).password@), old(self).auto_logon, ext)))"""),
               (None, "config-untouched", "final(self).restricted_admin_mode == old(self).restricted_admin_mode && final(self).auto_logon == old(self).auto_logon")]))
 
+# ---- the configuration setters (builder methods): each sets exactly its field(s) to its argument(s) and leaves every other option alone
+# (C17 / C02: "for every combination of {NLA, restricted admin, blank credentials, auto logon, ...}" is a statement about what connect() is
+# given: a setter that writes another option's field silently changes the mode)
+_FIELDS = {"width": "r.width == %s", "height": "r.height == %s", "layout": "r.layout == %s", "restricted_admin_mode": "r.restricted_admin_mode == %s", "domain": "r.domain@ == %s@",
+           "username": "r.username@ == %s@", "password": "r.password@ == %s@", "password_hash": "r.password_hash == %s", "auto_logon": "r.auto_logon == %s", "blank_creds": "r.blank_creds == %s",
+           "check_certificate": "r.check_certificate == %s", "name": "r.name@ == %s@", "use_nla": "r.use_nla == %s"}
+def _setter(fn, sets, props):
+    cl = [(",".join(props), "sets-%s" % f.replace("_", "-"), _FIELDS[f] % v) for f, v in sets.items()]
+    rest = [(_FIELDS[f] % ("self." + f)).replace("self.password_hash", "self.password_hash") for f in _FIELDS if f not in sets]
+    cl.append((",".join(props), "other-options-untouched", " && ".join(rest)))
+    # rule R14: Verus does not support a `mut self` parameter: it becomes `self`, rebound at body entry (`let mut __s = self;`), and the body's
+    # `self` is spelled `__s` (same statements, same order)
+    A(Fn(CLI, fn, impl=r"impl Connector", mod="client", ret="r", props=props, ensures=cl,
+         sig_sub=[(r"\(mut self", "(self")], body_sub=[(r"\bself\b", "__s")], pre="let mut __s = self;"))
+_setter("screen", {"width": "width", "height": "height"}, ["C03"])
+_setter("credentials", {"domain": "domain", "username": "username", "password": "password"}, ["C17", "C03"])
+_setter("set_restricted_admin_mode", {"restricted_admin_mode": "state"}, ["C17", "C03"])
+_setter("set_password_hash", {"password_hash": "Some(password_hash)"}, ["C17", "C15"])
+_setter("layout", {"layout": "layout"}, ["C03"])
+_setter("auto_logon", {"auto_logon": "auto_logon"}, ["C17"])
+_setter("blank_creds", {"blank_creds": "blank_creds"}, ["C17"])
+_setter("check_certificate", {"check_certificate": "check_certificate"}, ["C02"])
+_setter("name", {"name": "name"}, ["C03", "C04"])
+_setter("use_nla", {"use_nla": "use_nla"}, ["C02", "C17"])
+
 UNIT = Unit("connector", M.UNIT.preludes, items,
             uses=dict(M.UNIT.uses, sec=["use super::mcs;", "use super::tpkt;"], client=["use super::x224;", "use super::mcs;", "use super::tpkt;", "use super::sec;", "use super::global;", "use super::link::*;", "use super::gcc::KeyboardLayout;", "use super::ntlm::Ntlm;", "use super::sspi::*;"],
                       ntlm=["use super::sspi::*;"], **{"global": ["use super::gcc::KeyboardLayout;"]}),
